@@ -50,6 +50,9 @@ func (so *setObject) exportType() reflect.Type {
 }
 
 func (so *setObject) export(ctx *objectExportCtx) interface{} {
+	if v, exists := ctx.get(so.val); exists {
+		return v
+	}
 	a := make([]interface{}, so.m.size)
 	ctx.put(so.val, a)
 	iter := so.m.newIter()
@@ -90,6 +93,7 @@ func (so *setObject) exportToArrayOrSlice(dst reflect.Value, typ reflect.Type, c
 
 func (so *setObject) exportToMap(dst reflect.Value, typ reflect.Type, ctx *objectExportCtx) error {
 	dst.Set(reflect.MakeMap(typ))
+	ctx.putTyped(so.val, typ, dst.Interface())
 	keyTyp := typ.Key()
 	elemTyp := typ.Elem()
 	iter := so.m.newIter()
